@@ -310,6 +310,9 @@ func (s *ServerDnsListener) setOptionsRequest(v *commands.SetOptionsRequest, m *
 	} else if v.Closed != nil && *v.Closed == true {
 		log.Debugf("Client-initiated closing of the connection.")
 		_ = s.closeConnection(user)
+	} else if v.DownstreamFragmentSize != nil && *v.DownstreamFragmentSize == 0 {
+		// Nothing can be sent in fragments of no bytes (and cutting data into them never ends)
+		resp.Err = commands.BadFrag
 	} else {
 		logString := "SetOptions(user=#%d"
 		logData := make([]interface{}, 0)
